@@ -310,6 +310,11 @@ def check_data_case(acc, case, key):
                    max_segment_length=M)
         det.fit(Xf)
         ca, cb, pa, pb = float(det.collective_penalty_), (0.0,) * p, float(det.point_penalty_), (0.0,) * p
+    elif pen[0] == "callable":
+        ca, cb, pa, pb = float(pen[1]), tuple(map(float, pen[2])), float(pen[3]), tuple(map(float, pen[4]))
+        det = MVCAPA(cs, ps, collective_penalty=ConstPenalty(ca, cb), point_penalty=ConstPenalty(pa, pb),
+                     min_segment_length=msl, max_segment_length=M)
+        det.fit(Xf)
     else:
         det = MVCAPA(cs, ps, collective_penalty=pen[1], collective_penalty_scale=pen[2], point_penalty=pen[3],
                      point_penalty_scale=pen[4], min_segment_length=msl, max_segment_length=M)
@@ -439,6 +444,18 @@ def data_configs(tier, seed):
                         continue
                     out.append(("CAPA", alph, n, 1, csav, "L2Saving", msl, M, ("scale", 0.1, 0.05)))
                     out.append(("MVCAPA", alph, n, 1, csav, "L2Saving", msl, M, ("family", "combined", 0.1, "sparse", 0.1)))
+    # penalties comparable with the savings (so that pruning decisions are tight) -- the family that exposed the
+    # "alpha + max(beta)" pruning bound seeded by a sub-agent, which low-penalty configurations cannot see
+    for n in range(4, (7 if tier == "quick" else 8) + 1):
+        out.append(("MVCAPA", (0, 2), n, 2, "L2Saving", "L2Saving", 2, n, ("callable", 0.5, (3, 3), 4, (4, 4))))
+        if n <= 6:
+            out.append(("MVCAPA", (0, 2), n, 2, "L2Saving", "L2Saving", 2, 4, ("callable", 1.0, (2, 4), 3, (1, 5))))
+    for n in range(4, (8 if tier == "quick" else 10) + 1):
+        out.append(("MVCAPA", (0, 2), n, 1, "L2Saving", "L2Saving", 2, n, ("callable", 3.0, (2,), 5, (1,))))
+        out.append(("CAPA", (0, 2), n, 1, "L2Saving", "L2Saving", 2, n, ("scale", 1.0, 0.7)))
+    if tier == "thorough":
+        out.append(("MVCAPA", (0, 1, 2), 6, 2, "L2Saving", "L2Saving", 2, 6, ("callable", 0.5, (3, 3), 4, (4, 4))))
+        out.append(("MVCAPA", (0, 2), 4, 3, "L2Saving", "L2Saving", 2, 4, ("callable", 0.5, (3, 3, 3), 4, (4, 4, 4))))
     top2 = 4 if tier == "quick" else 5
     for n in range(2, top2 + 1):
         for fam in ("dense", "sparse", "intermediate", "combined"):
